@@ -86,6 +86,14 @@ def main():
     with open(specf) as f:
         spec = json.load(f)
     sys.setrecursionlimit(3000)
+    try:
+        # a render that allocates without bound (a non-terminating batch list, say) must end in a MemoryError
+        # inside this shard, not in the kernel's OOM killer taking other shards with it
+        import resource
+        lim = int(float(os.environ.get('VERIF_MEM_GB', '8')) * 2 ** 30)
+        resource.setrlimit(resource.RLIMIT_AS, (lim, lim))
+    except Exception:
+        pass
     assert_repo()
     mod = importlib.import_module('checks.' + cid.lower())
     ctx = Ctx(spec)
